@@ -809,7 +809,7 @@ func (gc *groundCheck) check(orig []*paramDesc, vals map[string]string, res map[
 			return false, fmt.Sprintf("output %d of kind %T cannot be pinned", i, v)
 		}
 	}
-	rep := &FuncReport{Decls: in.D.lines, Global: in.global}
+	rep := &FuncReport{Decls: in.D.lines, Global: in.global, D: in.D}
 	o := &Obligation{Hyps: gc.hyps, Goal: gc.goal, Extra: pins}
 	// Extra is emitted before the hypotheses; declarations are complete at this point.
 	dir, _ := os.MkdirTemp("", "govc-ground-")
@@ -834,7 +834,7 @@ func (gc *groundCheck) check(orig []*paramDesc, vals map[string]string, res map[
 		text += h.S
 	}
 	axiomatised := false
-	for _, sym := range []string{"mkstr", "sconcat", "hex_", "checksum", "hash256", "uf_", "sf_", "(forall", "(exists"} {
+	for _, sym := range []string{"mkstr", "sconcat", "hex_", "checksum", "hash256", "uf_", "(exists"} {
 		if strings.Contains(text, sym) {
 			axiomatised = true
 		}
